@@ -135,7 +135,9 @@ impl Pipeline {
 
     /// Execute the pipeline.
     pub fn execute(&mut self) -> Result<(), OperatorError> {
-        let chunk_size = self.compute_chunk_size();
+        // A hint of 0 rows (LIMIT 0) must not reach the source: it would hand out empty
+        // chunks for ever. One row per chunk lets the LIMIT stop the run at once.
+        let chunk_size = self.compute_chunk_size().max(1);
 
         // Process all chunks from source
         while let Some(chunk) = self.source.next_chunk(chunk_size)? {
